@@ -698,6 +698,14 @@ def run(case) -> Result:
     for e in steps:
         if e[1] == 'pre' and (e[0], 'sym', e[2]) in steps and trace.index((e[0], 'sym', e[2])) > trace.index(e):
             errs.append('I1: pre-sds validation of %s before its symbol validation' % (e,))
+    # "earliest failing step" is only meaningful if the validation steps themselves run in execution order of the phases
+    # (a definition is visible in all later phases INCLUDING act: symbols of act are validated after setup's, before before-assert's)
+    VAL_PHASE_ORDER = ('setup', 'act', 'before-assert', 'assert', 'cleanup')
+    for kind in ('sym', 'pre'):
+        seq = [(VAL_PHASE_ORDER.index(e[0]), e[2]) for e in steps if e[1] == kind and e[0] in VAL_PHASE_ORDER]
+        if seq != sorted(seq):
+            errs.append('I1: %s validation steps not in execution order of the phases / file order: %s' % (
+                STEP_WORD[kind], [e for e in steps if e[1] == kind]))
     if mains and sds_created and min(trace.index(m) for m in mains) < trace.index(('SDS', 'create', 0)):
         errs.append('I4: post-sds step before sandbox creation')
     if mains and not sds_created:
